@@ -339,3 +339,722 @@ def compile_prog(prog, compiler):
         return ("circuit-error", str(e))
     except Exception as e:  # anything else is not an allowed outcome
         return ("crash", type(e).__name__, str(e))
+
+
+# =======================================================================================
+# The check
+# =======================================================================================
+import hashlib  # noqa: E402
+import json  # noqa: E402
+import random as _random  # noqa: E402
+import traceback  # noqa: E402
+
+from vlib import coq  # noqa: E402
+from strawberryfields.compilers import compiler_db  # noqa: E402
+from strawberryfields.parameters import par_evaluate  # noqa: E402
+
+PROP = "C11"
+LEVEL = "proof"
+COQ_TARGETS = ["C11/Lin.vo", "C11/LinProofs.vo", "C11/Model.vo", "C11/Proofs.vo"]
+COQ_DIRS = ["C11"]
+PROPERTIES_FILE = "Properties/C11.v"
+ALLOWED_AXIOMS = set()
+
+GU_KIND = {"Dgate": 0, "Rgate": 1, "Sgate": 2, "S2gate": 3, "BSgate": 4, "MZgate": 5, "sMZgate": 6,
+           "Interferometer": 7, "GaussianTransform": 8}
+PA_KIND = {"Rgate": 1, "LossChannel": 2, "BSgate": 4, "MZgate": 5, "sMZgate": 6, "Interferometer": 7, "PassiveChannel": 8}
+
+
+def set_order(seq_modes):
+    """The enumeration `list(set(...))` that both compilers compute, on the same insertion sequence."""
+    return list(set([m for ms in seq_modes for m in ms]))
+
+
+def spec_of_circuit(circuit):
+    out = []
+    for c in circuit:
+        name = c.op.__class__.__name__
+        ms = [r.ind for r in c.reg]
+        ps = []
+        for v in par_evaluate(c.op.p):
+            if isinstance(v, np.ndarray) and v.ndim == 2:
+                ps.append(mat_to_json(v))
+            else:
+                ps.append(float(v))
+        out.append([name, ps, ms, bool(getattr(c.op, "dagger", False))])
+    return out
+
+
+def gu_model_cmd(c):
+    """Primitive values for one decomposed command, computed the way gaussian_unitary.py / thewalrus do."""
+    name, ps, ms, dag = c
+    k = GU_KIND[name]
+    prims, gx, gy = [], [], []
+    if name == "Dgate":
+        e = np.exp(1j * ps[1])
+        prims = [ps[0], e.real, e.imag]
+    elif name == "Rgate":
+        prims = [np.cos(ps[0]), np.sin(ps[0])]
+    elif name in ("Sgate", "S2gate"):
+        prims = [np.cosh(ps[0]), np.sinh(ps[0]), np.cos(ps[1]), np.sin(ps[1])]
+    elif name == "BSgate":
+        prims = [np.cos(ps[0]), np.sin(ps[0]), np.cos(ps[1]), np.sin(ps[1])]
+    elif name == "MZgate":
+        v, u = np.exp(1j * ps[0]), np.exp(1j * ps[1])
+        prims = [v.real, v.imag, u.real, u.imag]
+    elif name == "sMZgate":
+        es = np.exp(1j * (ps[0] + ps[1]) / 2)
+        dl = (ps[0] - ps[1]) / 2
+        prims = [es.real, es.imag, np.sin(dl), np.cos(dl)]
+    elif name == "Interferometer":
+        U = mat_from_json(ps[0])
+        gx, gy = U.real.tolist(), (U.imag.tolist() if np.iscomplexobj(U) else np.zeros(U.shape).tolist())
+    elif name == "GaussianTransform":
+        gx = mat_from_json(ps[0]).real.tolist()
+    return {"k": k, "p": [float(x) for x in prims], "x": gx, "y": gy, "m": ms, "d": dag}
+
+
+def pa_model_cmd(c):
+    name, ps, ms, dag = c
+    k = PA_KIND[name]
+    prims, U = [], []
+    if name == "Rgate":
+        e = np.exp(1j * ps[0])
+        prims = [e.real, e.imag]
+    elif name == "LossChannel":
+        prims = [np.sqrt(ps[0])]
+    elif name == "BSgate":
+        prims = [np.cos(ps[0]), np.sin(ps[0]), np.cos(ps[1]), np.sin(ps[1])]
+    elif name == "MZgate":
+        v, u = np.exp(1j * ps[0]), np.exp(1j * ps[1])
+        prims = [v.real, v.imag, u.real, u.imag]
+    elif name == "sMZgate":
+        es = np.exp(1j * (ps[0] + ps[1]) / 2)
+        dl = (ps[0] - ps[1]) / 2
+        prims = [es.real, es.imag, np.sin(dl), np.cos(dl)]
+    else:
+        M = mat_from_json(ps[0]).astype(complex)
+        U = [[(float(z.real), float(z.imag)) for z in row] for row in M]
+    return {"k": k, "p": [float(x) for x in prims], "u": U, "m": ms, "d": dag}
+
+
+def _fl(x):
+    return coq.coq_float(x)
+
+
+def _fmat(M):
+    return coq.coq_list([coq.coq_list(row, _fl) for row in M])
+
+
+def enc_gu(c):
+    return "mkGU float %d %s %s %s %s %s" % (c["k"], coq.coq_list(c["p"], _fl), _fmat(c["x"]), _fmat(c["y"]),
+                                           coq.coq_list(c["m"], str), coq.coq_bool(c["d"]))
+
+
+def enc_pa(c):
+    u = coq.coq_list([coq.coq_list(["(%s, %s)" % (_fl(a), _fl(b)) for a, b in row]) for row in c["u"]])
+    return "mkPA float %d %s %s %s %s" % (c["k"], coq.coq_list(c["p"], _fl), u, coq.coq_list(c["m"], str), coq.coq_bool(c["d"]))
+
+
+COQ_HEADER = """From Coq Require Import List ZArith Floats Bool.
+Import ListNotations.
+From SFV Require Import C11.Lin C11.Model.
+Open Scope float_scope.
+Definition gu := gu_compile float 0 1 PrimFloat.add PrimFloat.mul PrimFloat.sub PrimFloat.opp 2 0.5.
+Definition pa := pa_compile float 0 1 PrimFloat.add PrimFloat.mul PrimFloat.sub PrimFloat.opp 0.5.
+Definition rmat := rowop_mat float PrimFloat.add PrimFloat.mul.
+Definition rvec := rowop_vec float 0 PrimFloat.add PrimFloat.mul.
+Definition CF := (float * float)%type.
+Definition crmat := rowop_mat CF (cadd float PrimFloat.add) (cmul float PrimFloat.add PrimFloat.mul PrimFloat.sub).
+Close Scope float_scope.
+"""
+
+
+def model_eval(ctx, name, kind, cases):
+    """cases: [(enum, [model cmds])]; returns list of model outputs or None on failure."""
+    enc = enc_gu if kind == "gu" else enc_pa
+    ty = "gu_cmd float" if kind == "gu" else "pa_cmd float"
+    items = ["(%s, %s)" % (coq.coq_list(en, str), coq.coq_list([enc(c) for c in cs], lambda s: "(%s)" % s)) for en, cs in cases]
+    text = COQ_HEADER + "Definition cases : list (list nat * list (%s)) := [\n%s].\n" % (ty, ";\n".join(items))
+    text += "Eval vm_compute in map (fun c => %s (fst c) (snd c)) cases.\n" % kind
+    ok, vals, raw = ctx.coq_eval(name, text)
+    if not ok:
+        ctx.obligation("correspondence:%s" % name, False, raw)
+        return None
+    return vals[0]
+
+
+RULE = ("circuits over the operations accepted by each compiler on an index set drawn from {contiguous, gapped, "
+        "containing indices >= 8 chosen so that set-iteration order differs from sorted order}, with dagger flags, "
+        "matrix-parameter operations of 1-3 modes, and (gaussian_merge) hybrid circuits with Kerr/cubic/cross-Kerr "
+        "gates; non-trivial = set order != sorted order, or a dagger flag, or a hybrid circuit with >= 2 modes")
+TRUSTED_BASE = [
+    "Coq 8.16.1 kernel; vm_compute (primitive floats) for evaluating the model on cases",
+    "hand-written models coq/C11/Model.v of GaussianUnitary.compile and Passive.compile (loop, index map, block "
+    "construction from primitive values, row operations), tied by float correspondence (tolerance 1e-9) on generated "
+    "circuits; the k>=3-mode expand(..)@Snet path is modelled by the equivalent row operation",
+    "numpy elementary functions (cos, sin, cosh, sinh, sqrt, exp) evaluated by the harness on the arguments the code uses",
+    "harness tools/props/c11.py: reference meaning of a source circuit = ordered product of the per-operation Gaussian "
+    "channels measured on the gaussian backend through a Choi state (matrix operations from their defining matrix)",
+    "gaussian_merge: DAG surgery not modelled; checked per output by Gaussian stand-ins for the non-Gaussian gates "
+    "(an equality of operator words implies equality under every substitution) and by the Fock backend on replay",
+]
+ASSUMPTIONS = [
+    "theorems hold over every commutative ring; trig/hyperbolic values enter as inputs, so no identity about them is needed",
+    "the source-side meaning of a command with a dagger flag is the inverse gate (p[0] negated; U^dagger for MZgate/sMZgate)",
+]
+MANIFEST_TEXT = ("C11: row-operation = left multiplication and the compile-loop invariant proved for all enumerations, sizes "
+                 "and command lists (gaussian_unitary, passive); full statement holds when set order = sorted order and no "
+                 "dagger flags (both exclusions refuted in Coq and reproduced on the code); gaussian_merge validated per "
+                 "output, partial")
+
+TOL = 1e-9
+
+
+def _close(a, b, tol=TOL):
+    a, b = np.asarray(a), np.asarray(b)
+    return a.shape == b.shape and bool(np.all(np.abs(a - b) <= tol * np.maximum(1.0, np.maximum(np.abs(a), np.abs(b)))))
+
+
+def remap_circuit_spec(cspec, frm, to):
+    mp = dict(zip(frm, to))
+    return [[n, p, [mp.get(m, m) for m in ms], d] for n, p, ms, d in cspec]
+
+
+def judge(compiler, spec, dec, out_spec):
+    """Evaluate the property's predicate for gaussian_unitary / passive on the implementation.
+    Returns None if the compiled program has the action of the source, else (signature-suffix list, text)."""
+    used = used_modes_of(spec["cmds"])
+    src = source_channel(spec["cmds"], used)
+    out_modes = sorted({m for c in out_spec for m in c[2]})
+    if not set(out_modes) <= set(used):
+        return ["acts-on-unused-modes"], "compiled program acts on modes %s, source used %s" % (out_modes, used)
+    out = source_channel(out_spec, used)
+    if channels_close(src, out):
+        return None
+    d0 = channel_dist(src, out)
+    enum = set_order([c[2] for c in dec])
+    out_enum = source_channel(remap_circuit_spec(out_spec, sorted(enum), enum), used)
+    nodag = [[n, p, ms, False] for n, p, ms, d in dec]
+    src_nodag = source_channel(nodag, used)
+    if not channels_close(src, source_channel(dec, used)):
+        return ["decompose-changes-action"], "the decomposition stage already changes the action (dist %.3g)" % d0
+    if channels_close(src, out_enum):
+        return ["set-order"], "matrix rows follow list(set(modes)) order %s but registers are sorted %s (dist %.3g)" % (enum, sorted(enum), d0)
+    if channels_close(src_nodag, out):
+        return ["dagger-ignored"], "compiled action equals the source with every dagger flag dropped (dist %.3g)" % d0
+    if channels_close(src_nodag, out_enum):
+        return ["set-order", "dagger-ignored"], "both: set order %s vs sorted, and dagger flags dropped (dist %.3g)" % (enum, d0)
+    return ["wrong-net-action"], "compiled action differs from the ordered product of the source operations (dist %.3g)" % d0
+
+
+def run_compiler_case(compiler, spec):
+    """-> dict(kind=..., ...) describing what the implementation did."""
+    prog = build_program(spec)
+    r = compile_prog(prog, compiler)
+    if r[0] == "circuit-error":
+        return {"kind": "circuit-error"}
+    if r[0] == "crash":
+        return {"kind": "crash", "exc": r[1], "msg": r[2][:200]}
+    comp = compiler_db[compiler]()
+    dec = spec_of_circuit(comp.decompose(prog.circuit))
+    return {"kind": "ok", "dec": dec, "out": spec_of_circuit(r[1].circuit), "prog": prog, "compiled": r[1]}
+
+
+def accepted(compiler, name):
+    c = compiler_db[compiler]
+    return name in c.primitives or name in c.decompositions
+
+
+def check_pure(ctx, compiler, spec, where):
+    """Property predicate for gaussian_unitary/passive on one circuit; reports counterexamples. Returns result dict."""
+    res = run_compiler_case(compiler, spec)
+    data = {"check": "pure", "compiler": compiler, "spec": spec}
+    ok_ops = all(accepted(compiler, c[0]) for c in spec["cmds"])
+    if res["kind"] == "crash":
+        ctx.counterexample("%s:crash:%s" % (compiler, res["exc"]), "compile raised %s (%s), not a CircuitError" % (res["exc"], res["msg"]), data)
+    elif res["kind"] == "circuit-error":
+        if ok_ops:
+            ctx.counterexample("%s:rejects-accepted-circuit" % compiler, "CircuitError on a circuit made of accepted operations", data)
+    else:
+        if not ok_ops:
+            ctx.counterexample("%s:accepts-unsupported-op" % compiler, "a circuit containing an operation outside the accepted set compiled without CircuitError", data)
+        else:
+            j = judge(compiler, spec, res["dec"], res["out"])
+            if j is not None:
+                for s in j[0]:
+                    ctx.counterexample("%s:%s" % (compiler, s), "%s: %s" % (compiler, j[1]), data)
+                res["judge"] = j[0]
+    return res
+
+
+def is_nontrivial_pure(spec):
+    ms = [c[2] for c in spec["cmds"]]
+    return set_order(ms) != sorted(set_order(ms)) or any(c[3] for c in spec["cmds"])
+
+
+# ---------------------------------------------------------------------------------------
+# correspondence: model (Coq, floats) vs implementation
+
+def _impl_gu(seq, registers):
+    out = compiler_db["gaussian_unitary"]().compile(seq, registers)
+    S, regs, disp = None, None, {}
+    for c in out:
+        nm = c.op.__class__.__name__
+        if nm == "GaussianTransform":
+            S, regs = np.array(c.op.p[0], dtype=float), [r.ind for r in c.reg]
+        else:
+            disp[c.reg[0].ind] = complex(c.op.p[0] * np.exp(1j * c.op.p[1]))
+    return S, regs, disp
+
+
+def correspondence(ctx):
+    rng = ctx.rng
+    # ---- (1) row-operation helpers and _beam_splitter_passive, called directly
+    from strawberryfields.compilers import gaussian_unitary as GUm, passive as PAm
+    g = _nprng(rng)
+    n_h = ctx.budget(40, 300)
+    items, impl = [], []
+    for _ in range(n_h):
+        M = rng.randint(1, 4)
+        S, r = g.normal(size=(2 * M, 2 * M)), g.normal(size=2 * M)
+        two = M >= 2 and rng.random() < 0.6
+        k = 4 if two else 2
+        G = g.normal(size=(k, k))
+        if rng.random() < 0.2:
+            G = np.round(G)
+        sl = rng.sample(range(M), 2) if two else [rng.randrange(M)]
+        S2, r2 = S.copy(), r.copy()
+        if two:
+            GUm._apply_symp_two_mode_gate(G, S2, r2, sl[0], sl[1])
+        else:
+            GUm._apply_symp_one_mode_gate(G, S2, r2, sl[0])
+        slots = sl + [s + M for s in sl]
+        items.append("(rmat %s %s %s, rvec %s %s %s)" % (_fmat(G), coq.coq_list(slots, str), _fmat(S), _fmat(G), coq.coq_list(slots, str), coq.coq_list(r, _fl)))
+        impl.append((S2, r2))
+        ctx.case({"helper": "symp", "M": M, "slots": slots}, nontrivial=two and sl[0] > sl[1], bucket="helper-symp%d" % (k // 2))
+    citems, cimpl = [], []
+    for _ in range(n_h):
+        M = rng.randint(1, 4)
+        T = g.normal(size=(M, M)) + 1j * g.normal(size=(M, M))
+        two = M >= 2 and rng.random() < 0.6
+        sl = rng.sample(range(M), 2) if two else [rng.randrange(M)]
+        T2 = T.copy()
+        if two:
+            if rng.random() < 0.5:
+                th, ph = rng.uniform(-3, 3), rng.uniform(-3, 3)
+                G = PAm._beam_splitter_passive(th, ph)
+                ct, st, eip = np.cos(th), np.sin(th), np.cos(ph) + 1j * np.sin(ph)
+                Gm = "(pa_block float 0%%float 1%%float PrimFloat.add PrimFloat.mul PrimFloat.sub PrimFloat.opp 0.5%%float false (mkPA float 4 %s [] [] false))" % coq.coq_list([ct, st, eip.real, eip.imag], _fl)
+            else:
+                G = g.normal(size=(2, 2)) + 1j * g.normal(size=(2, 2))
+                Gm = coq.coq_list([coq.coq_list(["(%s, %s)" % (_fl(z.real), _fl(z.imag)) for z in row]) for row in G])
+            PAm._apply_two_mode_gate(G, T2, sl[0], sl[1])
+        else:
+            G0 = complex(g.normal(), g.normal())
+            Gm = "[[(%s, %s)]]" % (_fl(G0.real), _fl(G0.imag))
+            PAm._apply_one_mode_gate(G0, T2, sl[0])
+        Tm = coq.coq_list([coq.coq_list(["(%s, %s)" % (_fl(z.real), _fl(z.imag)) for z in row]) for row in T])
+        citems.append("crmat %s %s %s" % (Gm, coq.coq_list(sl, str), Tm))
+        cimpl.append(T2)
+        ctx.case({"helper": "passive", "M": M, "slots": sl}, nontrivial=two and sl[0] > sl[1], bucket="helper-passive%d" % len(sl))
+    text = COQ_HEADER + "Eval vm_compute in [\n%s].\nEval vm_compute in [\n%s].\n" % (";\n".join(items), ";\n".join(citems))
+    ok, vals, raw = ctx.coq_eval("cases_helpers", text)
+    if not ok:
+        ctx.obligation("correspondence:helpers", False, raw)
+    else:
+        bad = 0
+        for (Sm, rm), (Si, ri) in zip(vals[0], impl):
+            if not (_close(Sm, Si) and _close(rm, ri)):
+                bad += 1
+        for Tm, Ti in zip(vals[1], cimpl):
+            Tm = np.array([[complex(a, b) for a, b in row] for row in Tm])
+            if not _close(Tm, Ti):
+                bad += 1
+        ctx.traces += len(impl) + len(cimpl)
+        if bad:
+            ctx.disagreement("corr:row-helpers", "%d of %d direct calls of the _apply_* row helpers differ from the model's rowop" % (bad, len(impl) + len(cimpl)), {"check": "helpers"})
+
+    # ---- (2) the compile loops
+    n_cases = ctx.budget(120, 1500)
+    for kind, compiler, table in (("gu", "gaussian_unitary", {**GU_PRIMS, **GU_DECOMP}), ("pa", "passive", PASSIVE_PRIMS)):
+        specs, cases, impls = [], [], []
+        for i in range(n_cases):
+            spec = rand_circuit(rng, table, max_used=4, max_cmds=8, dagger_prob=0.3 if i % 3 == 0 else 0.0)
+            prog = build_program(spec)
+            comp = compiler_db[compiler]()
+            try:
+                seq = comp.decompose(prog.circuit)
+                dec = spec_of_circuit(seq)
+                enum = set_order([c[2] for c in dec])
+                if kind == "gu":
+                    im = _impl_gu(seq, prog.register)
+                else:
+                    out = comp.compile(seq, prog.register)
+                    im = (np.array(out[0].op.p[0]), [r.ind for r in out[0].reg])
+            except Exception as e:
+                ctx.counterexample("%s:crash:%s" % (compiler, type(e).__name__), "compile raised %r" % e, {"check": "pure", "compiler": compiler, "spec": spec})
+                continue
+            specs.append((spec, dec, enum))
+            cases.append((enum, [(gu_model_cmd if kind == "gu" else pa_model_cmd)(c) for c in dec]))
+            impls.append(im)
+            ctx.case({"compiler": compiler, "spec": spec}, nontrivial=is_nontrivial_pure(spec),
+                     bucket="%s-n%d-%s" % (kind, len(enum), "unsorted" if enum != sorted(enum) else "sorted"))
+        for s0 in range(0, len(cases), 300):
+            vals = model_eval(ctx, "cases_%s_%d" % (kind, s0 // 300), kind, cases[s0:s0 + 300])
+            if vals is None:
+                return
+            for (spec, dec, enum), im, mv_ in zip(specs[s0:s0 + 300], impls[s0:s0 + 300], vals):
+                ctx.traces += 1
+                n = len(enum)
+                diff = None
+                if kind == "gu":
+                    Sm, rm, ordm = mv_
+                    Sm, rm = np.array(Sm, dtype=float).reshape(2 * n, 2 * n), np.array(rm, dtype=float)
+                    Si, regs, disp = im
+                    if Si is None:
+                        if not np.allclose(Sm, np.eye(2 * n), atol=2e-5, rtol=0):
+                            diff = "implementation omitted the GaussianTransform but the model's Snet is not the identity"
+                    else:
+                        if list(regs) != list(ordm):
+                            diff = "registers %s vs model ord_reg %s" % (regs, ordm)
+                        elif not _close(Sm, Si):
+                            diff = "Snet differs (max %.3g)" % float(np.max(np.abs(Sm - Si)))
+                    if diff is None:
+                        al = 0.5 * (rm[:n] + 1j * rm[n:])
+                        for i_, m in enumerate(ordm):
+                            if abs(al[i_] - disp.get(m, 0.0)) > 2e-8:
+                                diff = "displacement on mode %d: model %r vs implementation %r" % (m, complex(al[i_]), disp.get(m, 0.0))
+                else:
+                    Tm, ordm = mv_
+                    Tm = np.array([[complex(a, b) for a, b in row] for row in Tm]).reshape(n, n)
+                    Ti, regs = im
+                    if list(regs) != list(ordm):
+                        diff = "registers %s vs model ord_reg %s" % (regs, ordm)
+                    elif not _close(Tm, Ti):
+                        diff = "T differs (max %.3g)" % float(np.max(np.abs(Tm - Ti)))
+                if diff is not None:
+                    res = check_pure(ctx, compiler, spec, "corr")
+                    if not res.get("judge") and res["kind"] == "ok":
+                        ctx.disagreement("corr:%s" % compiler, "model vs implementation: %s" % diff, {"check": "pure", "compiler": compiler, "spec": spec})
+                    elif res.get("judge"):
+                        # the property fails here anyway; still a tie break unless explained by a defect the model shares
+                        ctx.disagreement("corr:%s" % compiler, "model vs implementation: %s (property also fails: %s)" % (diff, res["judge"]), {"check": "pure", "compiler": compiler, "spec": spec})
+
+
+# ---------------------------------------------------------------------------------------
+# gaussian_merge: stand-ins, structure, Fock confirmation
+
+def standin_channel(name, params, dag):
+    """A fixed generic Gaussian unitary standing in for a non-Gaussian gate (same key -> same unitary)."""
+    k = NONGAUSS[name][0]
+    h = int(hashlib.sha1(repr((name, [round(float(x), 12) for x in params], bool(dag))).encode()).hexdigest()[:8], 16)
+    r = _random.Random(h)
+    sq = [math.exp(-0.3 - 0.1 * i) for i in range(k)] + [math.exp(0.3 + 0.1 * i) for i in range(k)]
+    S = symp_of_unitary(rand_unitary(r, k, "haar")) @ np.diag(sq) @ symp_of_unitary(rand_unitary(r, k, "haar"))
+    d = np.array([r.uniform(-1, 1) for _ in range(2 * k)])
+    return S, np.zeros((2 * k, 2 * k)), d
+
+
+def hybrid_channel(cmds, modes, nongauss="standin"):
+    """source_channel with every non-Gaussian gate replaced by its stand-in (or by the identity)."""
+    n = len(modes)
+    pos = {m: i for i, m in enumerate(modes)}
+    X, Y, d = np.eye(2 * n), np.zeros((2 * n, 2 * n)), np.zeros(2 * n)
+    for name, params, ms, dag in cmds:
+        if name in NONGAUSS:
+            if nongauss == "identity":
+                continue
+            Xo, Yo, do = standin_channel(name, params, dag)
+        else:
+            Xo, Yo, do = op_channel(name, params, dag)
+        sl = [pos[m] for m in ms]
+        E = embed(Xo, sl, n)
+        X, Y, d = E @ X, E @ Y @ E.T + embed_noise(Yo, sl, n), E @ d + embed_vec(do, sl, n)
+    return X, Y, d
+
+
+def wire_projection(cmds, w):
+    return [(c[0], tuple(round(float(x), 12) for x in c[1]), tuple(c[2]), bool(c[3])) for c in cmds if c[0] in NONGAUSS and w in c[2]]
+
+
+def merge_family(spec):
+    used = used_modes_of(spec["cmds"])
+    ng = sum(1 for c in spec["cmds"] if c[0] in NONGAUSS)
+    if ng == 0:
+        return "gaussian-only"
+    if len(used) == 1:
+        return "1mode"
+    return "hybrid-multimode"
+
+
+def rand_hybrid(rng, family=None):
+    family = family or rng.choice(["1mode", "gaussian-only", "hybrid-multimode", "hybrid-multimode"])
+    gauss = {**GU_PRIMS, **GU_DECOMP}
+    if family == "1mode":
+        N, used = rng.choice([(1, [0]), (3, [2]), (10, [9])])
+    elif rng.random() < 0.7:
+        k = rng.randint(2, 4)
+        N, used = k, list(range(k))
+    else:
+        N, used = rand_index_set(rng, 4)
+        if len(used) < 2:
+            used = used + [max(used) + 1]
+            N = max(N, max(used) + 1)
+    table = dict(gauss) if family == "gaussian-only" else {**gauss, **NONGAUSS, **{k + "": v for k, v in NONGAUSS.items()}}
+    n = rng.randint(1, 9)
+    cmds = []
+    for _ in range(n):
+        if family != "gaussian-only" and rng.random() < 0.3:
+            cmds.append(rand_cmd(rng, used, NONGAUSS, dagger_prob=0.0))
+        else:
+            cmds.append(rand_cmd(rng, used, gauss, dagger_prob=0.0, max_mat=2))
+    if family != "gaussian-only" and not any(c[0] in NONGAUSS for c in cmds):
+        cmds.insert(rng.randrange(len(cmds) + 1), rand_cmd(rng, used, {"Kgate": NONGAUSS["Kgate"], "Vgate": NONGAUSS["Vgate"]}, dagger_prob=0.0))
+    return {"N": N, "cmds": cmds}
+
+
+def sf_frame(e):
+    tb = traceback.extract_tb(e.__traceback__)
+    fr = [f for f in tb if "/strawberryfields/compilers/" in f.filename]
+    return fr[-1].name if fr else "?"
+
+
+def check_merge_case(ctx, spec, report=True):
+    """Property predicate for gaussian_merge on one hybrid circuit. Returns (signature or None, text, out_spec)."""
+    prog = build_program(spec)
+    fam = merge_family(spec)
+    data = {"check": "merge", "spec": spec}
+    sig, text, out = None, "", None
+    try:
+        with warnings.catch_warnings():
+            warnings.simplefilter("ignore")
+            compiled = prog.compile(compiler="gaussian_merge")
+    except CircuitError:
+        if all(accepted("gaussian_merge", c[0]) for c in spec["cmds"]):
+            sig, text = "gaussian_merge:rejects-accepted-circuit", "CircuitError on a circuit of accepted operations"
+        compiled = None
+    except Exception as e:
+        compiled = None
+        sig = "gaussian_merge:crash:%s@%s" % (type(e).__name__, sf_frame(e))
+        text = "gaussian_merge raised %s in %s (%s) instead of compiling or raising CircuitError" % (type(e).__name__, sf_frame(e), str(e)[:120])
+    if compiled is not None:
+        out = spec_of_circuit(compiled.circuit)
+        used = used_modes_of(spec["cmds"])
+        if not {m for c in out for m in c[2]} <= set(used):
+            sig, text = "gaussian_merge:acts-on-unused-modes", "compiled circuit touches modes outside the source's"
+        else:
+            src = hybrid_channel(spec["cmds"], used)
+            dst = hybrid_channel(out, used)
+            if not channels_close(src, dst, 1e-6):
+                dec = spec_of_circuit(compiler_db["gaussian_merge"]().decompose(prog.circuit))
+                wires_ok = all(wire_projection(dec, w) == wire_projection(out, w) for w in used)
+                total_ok = channels_close(hybrid_channel(spec["cmds"], used, "identity"), hybrid_channel(out, used, "identity"), 1e-6)
+                if not wires_ok:
+                    cls = "nongaussian-order-changed"
+                elif total_ok:
+                    cls = "misplaced-block"
+                else:
+                    cls = "wrong-block-content"
+                sig = "gaussian_merge:%s:%s" % (fam, cls)
+                text = ("compiled hybrid circuit is not equivalent to the source (non-Gaussian gates replaced by generic "
+                        "stand-ins; channel distance %.3g); class %s" % (channel_dist(src, dst), cls))
+    if sig and sig.startswith("gaussian_merge:crash"):
+        sig = sig  # crashes are not family-specific except that clean families must stay clean
+        if fam != "hybrid-multimode" and "IndexError" not in sig:
+            sig += ":" + fam
+    if sig and report:
+        ctx.counterexample(sig, text, data)
+    return sig, text, out
+
+
+def scale_small(spec, f=0.15):
+    out = []
+    for n, ps, ms, d in spec["cmds"]:
+        kinds = (GU_PRIMS.get(n) or GU_DECOMP.get(n) or NONGAUSS.get(n) or (None, []))[1]
+        q = [(round(p * f, 6) if (k in ("r", "d") and not isinstance(p, dict)) else p) for p, k in zip(ps, kinds)] if kinds else ps
+        out.append([n, q, ms, d])
+    return {"N": spec["N"], "cmds": out}
+
+
+def fock_differs(spec, cutoff=9):
+    """Run source and gaussian_merge-compiled program (scaled-down parameters) on the Fock backend.
+    True / False / None (not comparable: too big, compile fails, matrix ops)."""
+    s = scale_small(spec)
+    used = used_modes_of(s["cmds"])
+    if len(used) > 3 or any(isinstance(p, dict) for c in s["cmds"] for p in c[1]):
+        return None
+    mp = {m: i for i, m in enumerate(used)}
+    s = {"N": len(used), "cmds": [[n, p, [mp[m] for m in ms], d] for n, p, ms, d in s["cmds"]]}
+    prog = build_program(s)
+    try:
+        with warnings.catch_warnings():
+            warnings.simplefilter("ignore")
+            comp = prog.compile(compiler="gaussian_merge")
+        pre = [(ops.Coherent(0.2, 0.3 * (i + 1)), [i]) for i in range(len(used))]
+        kets = []
+        for circ in (prog.circuit, comp.circuit):
+            p2 = sf.Program(len(used))
+            with p2.context as q:
+                for op, ms in pre + pairs_of_circuit(circ):
+                    op | tuple(q[m] for m in ms)
+            st = sf.Engine("fock", backend_options={"cutoff_dim": cutoff}).run(p2).state
+            kets.append(st.ket())
+        ov = abs(np.vdot(kets[0], kets[1])) ** 2 / (np.vdot(kets[0], kets[0]).real * np.vdot(kets[1], kets[1]).real)
+        return bool(1 - ov > 1e-3)
+    except Exception:
+        return None
+
+
+def shrink(spec, pred, max_steps=60):
+    cmds = list(spec["cmds"])
+    steps = 0
+    changed = True
+    while changed and steps < max_steps:
+        changed = False
+        for i in range(len(cmds)):
+            c2 = cmds[:i] + cmds[i + 1:]
+            steps += 1
+            if c2 and pred({"N": spec["N"], "cmds": c2}):
+                cmds = c2
+                changed = True
+                break
+    return {"N": spec["N"], "cmds": cmds}
+
+
+# ---------------------------------------------------------------------------------------
+# search
+
+class _Quiet:
+    """ctx stand-in used while shrinking."""
+    def counterexample(self, *a, **k):
+        pass
+
+
+def search(ctx):
+    rng = ctx.rng
+    # (A) gaussian_unitary / passive: compiled matrices+registers vs ordered product of source operations
+    n_pure = ctx.budget(250, 3000)
+    for compiler, table in (("gaussian_unitary", {**GU_PRIMS, **GU_DECOMP}), ("passive", PASSIVE_PRIMS)):
+        found = {}
+        for i in range(n_pure):
+            mode = i % 10
+            if mode == 9:
+                # malformed stream: one operation the compiler does not accept
+                spec = rand_circuit(rng, table, max_used=3, max_cmds=4, dagger_prob=0.0)
+                bad = {"gaussian_unitary": {"Kgate": (1, ["r"]), "LossChannel": (1, ["t"]), "Vgate": (1, ["r"])},
+                       "passive": {"Sgate": (1, ["r", "a"]), "Dgate": (1, ["d", "a"]), "S2gate": (2, ["r", "a"]), "Kgate": (1, ["r"])}}[compiler]
+                used = used_modes_of(spec["cmds"])
+                cands = {k: v for k, v in bad.items() if v[0] <= len(used)}
+                spec["cmds"].insert(rng.randrange(len(spec["cmds"]) + 1), rand_cmd(rng, used, cands, 0.0))
+            else:
+                spec = rand_circuit(rng, table, max_used=rng.choice([2, 3, 4, 5]), max_cmds=rng.choice([3, 6, 10]),
+                                    dagger_prob=0.0 if mode < 5 else 0.3)
+            before = len(ctx.issues)
+            res = check_pure(ctx, compiler, spec, "search")
+            ctx.case({"compiler": compiler, "spec": spec, "outcome": res["kind"], "judge": res.get("judge")},
+                     nontrivial=is_nontrivial_pure(spec), bucket="search-%s-%s" % (compiler, res["kind"] if not res.get("judge") else "+".join(res["judge"])))
+            # shrink the first instance of every new signature so that the replay is small
+            for iss in ctx.issues[before:]:
+                if iss.kind == "counterexample" and iss.signature not in found:
+                    found[iss.signature] = True
+                    sig = iss.signature
+
+                    def pred(s2, sig=sig, compiler=compiler):
+                        class C(_Quiet):
+                            sigs = []
+                            def counterexample(self, s, *a, **k):
+                                self.sigs.append(s)
+                        c = C()
+                        c.sigs = []
+                        check_pure(c, compiler, s2, "shrink")
+                        return c.sigs == [sig]
+                    small = shrink(spec, pred)
+                    iss.data = {"check": "pure", "compiler": compiler, "spec": small}
+        # state-level cross-check on the backend when the compiled program is runnable
+        n_state = ctx.budget(25, 200)
+        for _ in range(n_state):
+            spec = rand_circuit(rng, table, max_used=3, max_cmds=6, dagger_prob=0.0)
+            if is_nontrivial_pure(spec):
+                continue
+            res = run_compiler_case(compiler, spec)
+            if res["kind"] != "ok":
+                continue
+            used = used_modes_of(spec["cmds"])
+            try:
+                a = choi_state(spec["N"], used, pairs_of_circuit(res["prog"].circuit))
+                b = choi_state(spec["N"], used, pairs_of_circuit(res["compiled"].circuit))
+            except Exception as e:
+                ctx.hist["state-level-unrunnable:" + type(e).__name__] = ctx.hist.get("state-level-unrunnable:" + type(e).__name__, 0) + 1
+                continue
+            ctx.case({"compiler": compiler, "spec": spec, "level": "state"}, bucket="state-%s" % compiler)
+            if not states_close(a, b, 1e-6):
+                ctx.counterexample("%s:state-differs" % compiler, "Result.state of source and compiled program differ on a Choi probe (dist %.3g)" % state_dist(a, b),
+                                   {"check": "state", "compiler": compiler, "spec": spec})
+
+    # (B) gaussian_merge on hybrid circuits
+    n_merge = ctx.budget(300, 3500)
+    found = {}
+    for i in range(n_merge):
+        spec = rand_hybrid(rng)
+        before = len(ctx.issues)
+        sig, text, out = check_merge_case(ctx, spec)
+        fam = merge_family(spec)
+        ctx.case({"compiler": "gaussian_merge", "spec": spec, "outcome": sig or "ok"}, nontrivial=fam == "hybrid-multimode",
+                 bucket="merge-%s-%s" % (fam, (sig or "ok").replace("gaussian_merge:", "")))
+        if sig and sig not in found:
+            found[sig] = True
+            small = shrink(spec, lambda s2, sig=sig: check_merge_case(_Quiet(), s2, report=False)[0] == sig)
+            for iss in ctx.issues[before:]:
+                iss.data = {"check": "merge", "spec": small}
+            if "crash" not in sig:
+                fd = fock_differs(small)
+                ctx.notes.append("gaussian_merge %s: Fock-backend confirmation on the shrunk case: %s" % (sig, fd))
+                if fd is False:
+                    # the stand-in test flagged it but real gates agree: not a violation of the property
+                    ctx.issues[:] = [x for x in ctx.issues if x.signature != sig]
+                    found[sig] = "refuted"
+        elif sig and found.get(sig) == "refuted":
+            ctx.issues[:] = [x for x in ctx.issues if x.signature != sig]
+
+
+def replay(ctx, data):
+    d = data["data"]
+    chk = d.get("check")
+    if chk == "pure":
+        class C(_Quiet):
+            def __init__(self):
+                self.sigs = []
+            def counterexample(self, s, what, *a, **k):
+                self.sigs.append(s)
+                print("  ", s, "-", what)
+        c = C()
+        res = check_pure(c, d["compiler"], d["spec"], "replay")
+        print("compiler:", d["compiler"], "outcome:", res["kind"])
+        if res["kind"] == "ok":
+            print("source (decomposed):", [(x[0], x[2], x[3]) for x in res["dec"]])
+            print("compiled:", [(x[0], x[2]) for x in res["out"]])
+        return bool(c.sigs)
+    if chk == "state":
+        spec = d["spec"]
+        res = run_compiler_case(d["compiler"], spec)
+        used = used_modes_of(spec["cmds"])
+        a = choi_state(spec["N"], used, pairs_of_circuit(res["prog"].circuit))
+        b = choi_state(spec["N"], used, pairs_of_circuit(res["compiled"].circuit))
+        print("state distance:", state_dist(a, b))
+        return not states_close(a, b, 1e-6)
+    if chk == "merge":
+        sig, text, out = check_merge_case(_Quiet(), d["spec"], report=False)
+        print("source:", [(x[0], x[2]) for x in d["spec"]["cmds"]])
+        print("compiled:", [(x[0], x[2]) for x in (out or [])])
+        print("predicate:", sig, text)
+        if sig and "crash" not in sig:
+            fd = fock_differs(d["spec"])
+            print("Fock backend (scaled parameters) source vs compiled differ:", fd)
+            if fd is False:
+                return False
+        return bool(sig)
+    if chk == "helpers":
+        print("row-helper correspondence: re-run ./check C11 quick")
+        return True
+    return False
